@@ -225,3 +225,24 @@ ADDENDA7 = {
 for _pid, _txt in ADDENDA7.items():
     if _pid in PROPS:
         PROPS[_pid]["explanation"] += _txt
+
+ADDENDA8 = {
+    "C02": " C02.10 the builder's block flag is restored; C02.11 memoised macro descent; C02.12 file text is read untranslated.",
+    "C04": " C04.12 splice compares block kinds; C04.13 polarity of the count-kind refusal.",
+    "C05": " C05.16 fillers keep definitions of non-macro statements; C05.17 visited fields are not re-used raw.",
+    "C06": " C06.16 None-default polarity; C06.17 fillers keep definitions; C06.18 Constant.__int__ follows constants of constants.",
+    "C07": " C07.9 macro arguments are resolved in the caller's scope or the analysis fails.",
+    "C08": " C08.13 discovery results, first trace, fire level and exhaustion test of the walker.",
+    "C09": " C09.13 the relink condition is a conjunction.",
+    "C10": " C10.17 fillers keep definitions; C10.18 visited fields are not re-used raw.",
+    "C13": " C13.19 snapshot elements are compared with their sources; C13.20 None-default polarity.",
+    "C14": " C14.9 range validation guard; C14.10 None-default polarity; C14.11 check_argument walk; C14.12 count integrality; C14.13 unknown gates in pre-built statements are refused; C14.14 every component of a relative module name is used (open finding).",
+    "C15": " C15.15 clipping error term and warning guard.",
+    "C16": " C16.23 end-of-input position; C16.24 memoised macro descent; C16.25 Q-syntax conversions guarded; C16.26 egg search total; C16.27 float parameter range; C16.28 token positions in lexer actions.",
+    "C17": " C17.9 unknown gates in pre-built statements are refused like in text.",
+    "C18": " C18.13 kind reads in validate are guarded; C18.14 float parameter range.",
+    "C20": " C20.12 NaN clause is a conjunction.",
+}
+for _pid, _txt in ADDENDA8.items():
+    if _pid in PROPS:
+        PROPS[_pid]["explanation"] += _txt
